@@ -187,7 +187,14 @@ def gen_macro_program(rng, var):
             a.append("    %s %s" % (l[1], ", ".join(l[2])))
             b += expand(macros, l[1], l[2], counter)
     nontriv = any(getattr(m, "nested", False) or m.labels for m in macros)
-    return mtext + "\n".join(a) + "\n", itext + "\n".join(b) + "\n", nontriv
+    banks = ""
+    if rng.random() < 0.3:
+        # a second bank whose output offset is not zero: positions inside a block are positions in the bank,
+        # not in the output
+        base = rng.choice([0x20, 0x40, 0x60])
+        banks = ("#bankdef lo { #addr 0x0000, #size 0x10, #outp 0 }\n#bankdef hi { #addr 0x%x, #size 0x90, #outp 8 * 0x10 }\n"
+                 "#bank lo\n    nop\n#bank hi\n" % base)
+    return mtext + banks + "\n".join(a) + "\n", itext + banks + "\n".join(b) + "\n", nontriv
 
 
 # ---------------------------------------------------------------- functions
